@@ -14,6 +14,7 @@
 //   - returns an object XOR a non-empty error list,
 //   - does not panic,
 //   - compiling twice gives the same object dump,
+//
 // plus nesting sweeps with the fitted time-growth exponent in the evidence.
 package main
 
@@ -26,9 +27,9 @@ import (
 	"os"
 	"os/exec"
 	"path/filepath"
+	"runtime"
 	"sort"
 	"strconv"
-	"runtime"
 	"strings"
 	"sync"
 	"syscall"
@@ -95,13 +96,13 @@ type tokJ struct {
 }
 
 type lexCase struct {
-	Src      string  `json:"src"` // quoted
-	Policy   string  `json:"policy"`
-	Rx       []bool  `json:"rx"`
-	Toks     []tokJ  `json:"toks"`
-	Calls    int     `json:"calls"`
-	Compiled bool    `json:"compiled"`
-	Problem  string  `json:"problem,omitempty"`
+	Src      string `json:"src"` // quoted
+	Policy   string `json:"policy"`
+	Rx       []bool `json:"rx"`
+	Toks     []tokJ `json:"toks"`
+	Calls    int    `json:"calls"`
+	Compiled bool   `json:"compiled"`
+	Problem  string `json:"problem,omitempty"`
 }
 
 // canonical form of an INVALID token's spelling: (constructor, variable part)
@@ -1014,6 +1015,19 @@ func nest(shape string, n int) string {
 		return "counter c\nlen(\"a\"" + strings.Repeat(", 1", n) + ") > 0 {\n c++\n}\n"
 	case "stmts":
 		return "counter c\n" + strings.Repeat("/a/ {\n c++\n}\n", n)
+	case "limit-payload":
+		// n nested pattern blocks around statements of every expression shape
+		// (builtin calls over compound arguments, indexed metrics, conversions,
+		// comparisons, concatenations): swept one level at a time across the
+		// checker's recursion limit, so that the limit falls on every kind of node once
+		return "counter c\ngauge g\ntext t\ncounter m by k\n" + strings.Repeat("/(\\d+)/ {\n", n) +
+			"c = 1 + int(1 + $1)\n" +
+			"g = len(string($1 + 1)) + strtol(string(2 * $1), 10)\n" +
+			"t = subst(\"a\" + \"b\", \"c\", string($1)) + tolower(string($1 - 1))\n" +
+			"m[tolower(string($1 * 3))]++\n" +
+			"$1 > 3 && float($1 * 2) < 10.5 || $1 =~ /7/ + /8/ {\n  c++\n  del m[string($1)] after 1h\n}\n" +
+			"settime(int($1) + 1)\nstrptime(string($1) + \"-01\", \"2006-01\")\n" +
+			strings.Repeat("}\n", n)
 	}
 	return ""
 }
@@ -1233,6 +1247,9 @@ func main() {
 			pts = append(pts, sweepPt{sh, n, len(cins)})
 			cins = append(cins, cin{s, fmt.Sprintf("nest/%s/%d", sh, n)})
 		}
+	}
+	for n := 0; n <= 70; n++ {
+		cins = append(cins, cin{nest("limit-payload", n), fmt.Sprintf("nest/limit-payload/%d", n)})
 	}
 	srcs = make([]string, len(cins))
 	for i, c := range cins {
